@@ -6,3 +6,68 @@
 #![allow(unused_imports, dead_code, unused_variables, unused_mut, unused_parens, unused_braces, non_snake_case, unreachable_code, unused_assignments)]
 #![feature(sized_hierarchy, allocator_api)]
 use vstd::prelude::*;
+use vstd::std_specs::cmp::*;
+
+verus! {
+pub mod vstubs {
+use vstd::prelude::*;
+use vstd::std_specs::cmp::*;
+use crate::ghost::*;
+
+/// Models a documented panic as "does not return" (R-assert-diverge): partial correctness.
+#[verifier::external_body]
+pub fn vpanic()
+    ensures false,
+{
+    panic!()
+}
+
+pub assume_specification<T> [<[T]>::to_vec] (s: &[T]) -> (r: Vec<T>)
+    where T: Clone,
+    ensures r@ == s@;
+
+// --- [u8] comparison is lexicographic byte order (std documentation) ---
+pub broadcast axiom fn axiom_slice_u8_ord(a: &[u8], b: &[u8])
+    ensures
+        #[trigger] vstd::std_specs::cmp::PartialOrdSpec::partial_cmp_spec(&(*a), &*b) == Some(lex_cmp(a@, b@)),
+;
+pub broadcast axiom fn axiom_slice_u8_eq(a: &[u8], b: &[u8])
+    ensures
+        #[trigger] vstd::std_specs::cmp::PartialEqSpec::eq_spec(&(*a), &*b) == (a@ == b@),
+;
+pub axiom fn axiom_slice_u8_obeys()
+    ensures
+        <[u8] as PartialOrdSpec<[u8]>>::obeys_partial_cmp_spec(),
+        <[u8] as PartialEqSpec<[u8]>>::obeys_eq_spec(),
+;
+
+// --- fixed-width encodings (wrappers whose bodies are the original std calls) ---
+#[verifier::external_body]
+pub fn u32_to_be_bytes(x: u32) -> (r: [u8; 4]) ensures r@ == be32(x) { x.to_be_bytes() }
+#[verifier::external_body]
+pub fn u32_to_le_bytes(x: u32) -> (r: [u8; 4]) ensures r@ == le32(x) { x.to_le_bytes() }
+#[verifier::external_body]
+pub fn u64_to_be_bytes(x: u64) -> (r: [u8; 8]) ensures r@ == be64(x) { x.to_be_bytes() }
+#[verifier::external_body]
+pub fn u64_to_le_bytes(x: u64) -> (r: [u8; 8]) ensures r@ == le64(x) { x.to_le_bytes() }
+
+/// R-hoist of `buf.extend(offsets.iter().copied().flat_map(u64::to_be_bytes))` (iterator adapters are outside Verus).
+#[verifier::external_body]
+pub fn extend_be64s(buf: &mut Vec<u8>, offsets: &Vec<u64>)
+    ensures final(buf)@ == old(buf)@ + be64s(offsets@),
+{
+    buf.extend(offsets.iter().copied().flat_map(u64::to_be_bytes));
+}
+
+} // mod vstubs
+} // verus!
+
+verus! {
+#[verifier::external_trait_specification]
+pub trait ExAsRef<T: core::marker::PointeeSized>: core::marker::PointeeSized {
+    type ExternalTraitSpecificationFor: AsRef<T>;
+    fn as_ref(&self) -> &T;
+}
+pub assume_specification<T, A: core::alloc::Allocator> [<Vec<T, A> as AsRef<[T]>>::as_ref] (v: &Vec<T, A>) -> (r: &[T])
+    ensures r@ == v@;
+} // verus!
